@@ -3,6 +3,11 @@
 import json, os
 
 CLAIMED = {
+    "C15": ("Coq proof of the round trips visible in the models (MetricHistory codec, trial file, oracle state, container copy) + implementation-level round trips through real JSON text for every serialisable type",
+            "C15_metric_history_roundtrip: for every history built by reports (steps distinct: C15_reports_keep_steps_distinct) from_config(get_config(h)) keeps for every step exactly its executions, lists them in step order, and is "
+            "a fixed point of a second round trip; C15_trial_file_roundtrip; C15_oracle_state_roundtrip (with C07). PARTIAL: per-kind hyperparameter configs, Trial fields, tracker directions and JSON itself are not modelled - they are checked "
+            "on generated instances through json.dumps/loads: equality of every observable field, idempotence of the JSON text, independence of copy(), oracle get_state/set_state on states reached by schedules of the four oracle kinds.",
+            "Trusted: Coq kernel/vm_compute; python harness; json module; the list of observables stated in the evidence.", "DESIGN.md section 6 C15"),
     "C20": ("Coq proof on Checkpoint.v (the shared SaveBestEpoch callback keeps the first epoch attaining the best value over all executions; it agrees with the History post-processing for one execution) + end-to-end searches with the real tuners, callbacks and checkpoint files",
             "C20_callback_keeps_first_best (for every finite curve, direction, number of executions: the last save is the first epoch attaining the best value in execution-major order), C20_selectors_agree (for one execution the kept epoch is the "
             "epoch whose value and index are reported to the oracle), C20_first_best_unique; also over integers. PARTIAL by nature: that Keras save_weights/load_weights restore the arrays and that fit honours initial_epoch are observed, not proved: "
